@@ -44,6 +44,9 @@ def oracle(case, obs):
         return sc.broad_oracle(case, obs)
     if obs["raised"] != "none":
         return f"do() raised: {obs['raised']}"
+    why = sc.clock_oracle(obs)
+    if why:
+        return why
     tr = obs["trace"]
     tock = case["tock"]
     # 1. each cycle advances tyme by exactly one tock: the recur tymes are on the iterated grid
